@@ -11,12 +11,15 @@ VARIABLES toks, pend
 vars == <<toks, pend>>
 
 (* production -> operand types, left to right *)
-IntProds == {"L", "add", "sub", "mul", "call2", "call3", "orp", "orn", "rec", "neg"}
-BoolProds == {"LT", "LF", "and", "or", "lt", "eq", "not", "andor"}
+(* VAR reads the global counter `cnt`, BUMP increments it through `modify` and returns it: a later   *)
+(* sibling must not disturb the value an earlier operand already produced                            *)
+IntProds == {"L", "add", "sub", "mul", "call2", "call3", "orp", "orn", "rec", "neg", "VAR", "BUMP"}
+(* KT / KF are the literals true / false (no side effect): folding must not drop a sibling *)
+BoolProds == {"LT", "LF", "and", "or", "lt", "eq", "not", "andor", "KT", "KF"}
 IxProds == {"LI0", "LI1"}
 RootProds == {"printi", "printb", "list3", "call4", "ifb", "assign2", "listidx"}
 Kids(p) ==
-    CASE p \in {"L", "LT", "LF", "LI0", "LI1"} -> <<>>
+    CASE p \in {"L", "LT", "LF", "LI0", "LI1", "VAR", "BUMP", "KT", "KF"} -> <<>>
       [] p \in {"add", "sub", "mul", "call2", "lt", "eq"} -> <<"int", "int">>
       [] p = "call3" -> <<"int", "int", "int">>
       [] p = "listidx" -> <<"int", "int", "ix">>
@@ -31,7 +34,7 @@ Kids(p) ==
       [] p = "ifb" -> <<"bool">>
       [] p = "assign2" -> <<"int", "int">>
 Prods(ty) == CASE ty = "int" -> IntProds [] ty = "bool" -> BoolProds [] ty = "ix" -> IxProds [] ty = "root" -> Roots
-Leafs(ty) == CASE ty = "int" -> {"L"} [] ty = "bool" -> {"LT", "LF"} [] ty = "ix" -> IxProds [] ty = "root" -> {}
+Leafs(ty) == CASE ty = "int" -> {"L", "VAR", "BUMP"} [] ty = "bool" -> {"LT", "LF", "KT", "KF"} [] ty = "ix" -> IxProds [] ty = "root" -> {}
 
 Init == toks = <<>> /\ pend = <<[ty |-> "root", d |-> 0]>>
 Choose(p) ==
@@ -58,6 +61,10 @@ Parse(ts, i) ==
     [nx |-> a.nx,
      ix |-> IF p = "listidx" THEN x[3] ELSE Nil,
      e |-> CASE p = "L" -> LogI(i)
+             [] p = "VAR" -> V("cnt")
+             [] p = "BUMP" -> Call(V("bump"), <<>>)
+             [] p = "KT" -> B(TRUE)
+             [] p = "KF" -> B(FALSE)
              [] p = "LT" -> Call(V("lb"), <<I(i), B(TRUE)>>)
              [] p = "LF" -> Call(V("lb"), <<I(i), B(FALSE)>>)
              [] p = "LI0" -> Call(V("ix"), <<I(i), I(0)>>)
@@ -88,7 +95,9 @@ Tail2(ts) == IF ts[1] = "listidx" THEN <<Print(Idx(V("pair"), Parse(ts, 1).ix))>
              ELSE IF ts[1] = "assign2" THEN <<Print(V("pair"))>> ELSE <<>>
 
 Prologue ==
-    <<Let("lg", Fn("lg", <<P("n", "int")>>, "int", <<Print(V("n")), Ret(V("n"))>>)),
+    <<Let("cnt", I(1000)),
+      Let("bump", Fn("bump", <<>>, "int", <<Print(S("bump")), Modify("cnt", Bin("+", V("cnt"), I(1))), Ret(V("cnt"))>>)),
+      Let("lg", Fn("lg", <<P("n", "int")>>, "int", <<Print(V("n")), Ret(V("n"))>>)),
       Let("lb", Fn("lb", <<P("n", "int"), P("b", "bool")>>, "bool", <<Print(V("n")), Ret(V("b"))>>)),
       Let("ix", Fn("ix", <<P("n", "int"), P("r", "int")>>, "int", <<Print(V("n")), Ret(V("r"))>>)),
       Let("op", Fn("op", <<P("n", "int")>>, "int?", <<Print(V("n")), Ret(V("n"))>>)),
